@@ -427,12 +427,25 @@ pub fn storm_theme(t: &mut Tape) -> Option<Pos> {
 
 /// `heavy`: 7-9 queens a side (depth 1 alone takes millions of nodes)
 pub fn storm_theme_sized(t: &mut Tape, heavy: bool) -> Option<Pos> {
+    if heavy {
+        storm_theme_n(t, 7, 3)
+    } else {
+        storm_theme_n(t, 4, 3)
+    }
+}
+
+/// 4-8 queens a side: for in-process searches that are stopped at a chosen poll (C09 `first_iteration`)
+pub fn storm_theme_medium(t: &mut Tape) -> Option<Pos> {
+    storm_theme_n(t, 4, 5)
+}
+
+fn storm_theme_n(t: &mut Tape, least: usize, span: usize) -> Option<Pos> {
     let mut p = Pos::empty();
     let wk = crate::refchess::sq(t.pick(8) as i32, 0);
     let bk = crate::refchess::sq(t.pick(8) as i32, 7);
     p.board[wk as usize] = Some(Pc::new(true, Kind::K));
     p.board[bk as usize] = Some(Pc::new(false, Kind::K));
-    let nq = if heavy { 7 + t.pick(3) } else { 4 + t.pick(5) };
+    let nq = least + t.pick(span);
     for white in [true, false] {
         for i in 0..nq {
             // queens mostly in the middle ranks, a few minor pieces to vary the exchanges
@@ -644,6 +657,14 @@ pub fn gen_game_opts(t: &mut Tape, mate_bias: usize, max_plies: usize, allow_sto
     } else {
         let r = if t.pick(5) == 0 { gen::gen_root(t, Mix::Tactical)? } else { gen::gen_root(t, Mix::Roots)? };
         (r.pos, r.src)
+    };
+    // Positions of this pool are searched to a fixed depth, also by the shipped binary under wall-clock
+    // oracles: a one-ply search of nine queens a side was measured at 1.2e9 nodes (275 s), so the pool
+    // holds at most twelve queens (heavier material is searched under time limits only: C14, C05, C09)
+    let (root, src) = if root.count(true, Kind::Q) + root.count(false, Kind::Q) > if src == "capture_storm" { 12 } else { 10 } {
+        (gen::gen_root(t, Mix::Roots)?.pos, "root")
+    } else {
+        (root, src)
     };
     let mut cur = root.clone();
     let mut moves = vec![];
